@@ -52,6 +52,10 @@ def write_all(d, seed=0, n=6):
                 fp.write(">%s\n%s\n" % (nm, "".join(seqs[nm])))
 
     order = [names[i] for i in rng.permutation(n)]
+    leaf_order = [nd.name for nd in rt.preorder(root) if nd.is_leaf()]
+    if order == leaf_order or order == sorted(order):
+        # the alignment never lists the taxa in the order in which the tree file (or the alphabet) does: whoever reads both must match by name
+        order = order[1:] + order[:1]
     nuc = evolve(list("ACGT"), 48, 0.15)
     nuc[order[0]][3] = "R"  # an ambiguity code and a gap
     nuc[order[1]][5] = "-"
